@@ -548,6 +548,10 @@ func c18Cases(tier string) []httpCase {
 				out = append(out, httpCase{bodyKind: "stream", body: "hello streamed body", reqCtx: "background", execCtx: "none", stack: st, script: sc, via: "roundtripper"})
 				out = append(out, httpCase{bodyKind: "stringsreader", body: "hello body", reqCtx: "value", execCtx: "none", stack: st, script: sc, via: "do"})
 			}
+			// seekable bodies set directly on the request, under every stack, with a server slow enough for hedge attempts to overlap
+			for _, bk := range []string{"seeker-direct", "seeker-file"} {
+				out = append(out, httpCase{bodyKind: bk, body: "hello body", reqCtx: "background", execCtx: "none", stack: st, script: scripts[len(scripts)-1], via: "roundtripper"})
+			}
 		}
 		return out
 	}
@@ -582,6 +586,24 @@ func c18Scenarios(tier string) []*Scenario {
 	return append(out, c18GrpcScenarios(tier)...)
 }
 
+func mergeStats(tot, st *Stats) {
+	tot.Executions += st.Executions
+	tot.Points += st.Points
+	tot.Steps += st.Steps
+	tot.Outcomes += st.Outcomes
+	tot.Nontrivial += st.Nontrivial
+	tot.Pruned += st.Pruned
+	tot.HorizonHits += st.HorizonHits
+	tot.MaxThreads = max(tot.MaxThreads, st.MaxThreads)
+	tot.BoundCompleted = min(tot.BoundCompleted, st.BoundCompleted)
+	tot.BoundAsked = max(tot.BoundAsked, st.BoundAsked)
+	tot.Capped = tot.Capped || st.Capped
+	tot.Violations = append(tot.Violations, st.Violations...)
+	if tot.Sample == nil {
+		tot.Sample, tot.SampleSchedule = st.Sample, st.SampleSchedule
+	}
+}
+
 // chunkUnits groups scenarios into units of n so that worker hand-out overhead stays small.
 func chunkUnits(prefix string, scs []*Scenario, n int) []Unit {
 	var us []Unit
@@ -594,21 +616,7 @@ func chunkUnits(prefix string, scs []*Scenario, n int) []Unit {
 				if os.Getenv("VERIF_DEBUG_HEAVY") != "" && st.Executions+st.Pruned > 1500 {
 					fmt.Fprintf(os.Stderr, "HEAVY %d+%d bound=%d %s\n", st.Executions, st.Pruned, sc.Bound, sc.Name)
 				}
-				tot.Executions += st.Executions
-				tot.Points += st.Points
-				tot.Steps += st.Steps
-				tot.Outcomes += st.Outcomes
-				tot.Nontrivial += st.Nontrivial
-				tot.Pruned += st.Pruned
-				tot.HorizonHits += st.HorizonHits
-				tot.MaxThreads = max(tot.MaxThreads, st.MaxThreads)
-				tot.BoundCompleted = min(tot.BoundCompleted, st.BoundCompleted)
-				tot.BoundAsked = max(tot.BoundAsked, st.BoundAsked)
-				tot.Capped = tot.Capped || st.Capped
-				tot.Violations = append(tot.Violations, st.Violations...)
-				if tot.Sample == nil {
-					tot.Sample, tot.SampleSchedule = st.Sample, st.SampleSchedule
-				}
+				mergeStats(tot, st)
 			}
 			return tot
 		}})
